@@ -48,6 +48,9 @@ CHECKS = {
   'C16': dict(category='other', technique='symbolic execution of the traced regridding code with symbolic grid bounds / surface pressure / fields (z3 terms with ite, sin uninterpreted) + QF_LRA / QF_NRA queries with cut-point abstraction; affine normal forms for concrete grid pairs',
               text='Vertical: overlap lemmas for ALL strictly increasing source/target bounds (<= 6x5 cells), weights in [0,1] with unit row sums, hybrid-to-sigma regridding for ALL surface pressures in [400,1100] and fields (constants, convex combination, low-top models). Horizontal: latitude overlap identities for ALL increasing centres (<= 4x3), concrete grid pairs with ALL fields symbolic (constants, range, area integral), documented NaN rules on enumerated missing patterns.',
               design='§3 C16'),
+  'C17': dict(category='other', technique='symbolic execution of the traced interpolation routines (scan-based searchsorted, clamped dynamic_slice/gather, masks) to z3 terms with symbolic query point, data (and nodes for n<=3) + QF_LRA atom specialisation + QF_NRA queries',
+              text='For ALL query points and data (concrete uneven node sets up to 6 nodes; symbolic nodes for n<=3): value at nodes, agreement with the reference piecewise-linear interpolant, neighbour bounds, exactness on affine data, documented extrapolation (constant / unlimited linear / n cells then missing), equality of the two interp code paths, sigma<->pressure on affine columns for all surface pressures, surface-pressure equation, column-wise wrappers; bilinear/nearest regridding constants and identity.',
+              design='§3 C17'),
   'C13': dict(category='other', technique='symbolic execution of the traced jaxpr + QF_LRA queries (monomial abstraction for bilinear clauses)',
               text='Bounded symbolic verification of the sigma calculus identities for ALL column data and vertical velocities on each enumerated level set (even, dyadic uneven, seeded random), axis and shape.',
               design='§3 C13'),
